@@ -118,7 +118,16 @@ def execute(case):
                 log(ev="ctor", c=c)
                 for d in kids[c]:
                     drn = prog["drn"][d - 1]
-                    self.add_component(f"k{d}" if drn == "default" else f"k{d}/{drn}", classes[d])
+                    typ = classes[d]
+                    if (case.get("seed", 0) + d) % 3 == 2:
+                        # the child's type named by a module:attr reference instead of the class object
+                        import sys
+                        import types as _types
+                        mod = sys.modules.setdefault("verif_startup_dyn", _types.ModuleType("verif_startup_dyn"))
+                        attr = f"C{d}_{id(classes):x}"
+                        setattr(mod, attr, classes[d])
+                        typ = f"verif_startup_dyn:{attr}"
+                    self.add_component(f"k{d}" if drn == "default" else f"k{d}/{drn}", typ)
                 if fc == c and fphase == "creating":
                     x = make_boom("creating")
                     state["exc"] = x
